@@ -18,10 +18,10 @@ def bounds(tier):
 
 
 def mk(n_rc, n_rd, n_other, allow, opt, source='string', order=None, T=60, with_replace=False, same_mid=False,
-       blank_roid=None):
+       blank_roid=None, repeat=None):
     n = n_rc + n_rd + n_other
     P = {'n_rc': n_rc, 'n_rd': n_rd, 'n_other': n_other, 'allow': allow, 'opt': opt, 'source': source, 'order': order,
-         'with_replace': with_replace, 'same_mid': same_mid, 'blank_roid': blank_roid}
+         'with_replace': with_replace, 'same_mid': same_mid, 'blank_roid': blank_roid, 'repeat': repeat}
     sym = [('r%d' % i, 'str') for i in range(n)]
     pre = str_pre([s for s, _ in sym])
     cid = 'C11/rc%d-rd%d-other%d/%s/%s/%s' % (n_rc, n_rd, n_other, 'allow-incomplete' if allow else 'complete-only',
@@ -32,6 +32,8 @@ def mk(n_rc, n_rd, n_other, allow, opt, source='string', order=None, T=60, with_
         cid += '/id-of-roCreate-repeated'
     if blank_roid is not None:
         cid += '/blank-roID-at-%d' % blank_roid
+    if repeat is not None:
+        cid += '/entry-%d-listed-twice' % repeat
     if order:
         cid += '/order-' + ''.join(map(str, order))
     return Cell(pid=PID, cid=cid, harness='h_collect:accept_cell', params=P, sym=sym, pre=pre, stubs=(),
@@ -54,6 +56,11 @@ def cells(tier):
         # allow_incomplete is honoured by every constructor
         for (n_rc, n_rd, n_other) in ((1, 0, 1), (1, 0, 0), (1, 2, 0), (0, 0, 1)):
             out.append(mk(n_rc, n_rd, n_other, True, False, source=src, T=T))
+    # the same string / path / key listed twice counts twice
+    for src in ('string', 'file', 's3'):
+        for (n_rc, n_rd, n_other), rep in (((1, 1, 0), 0), ((1, 1, 0), 1), ((1, 1, 1), 1), ((1, 0, 1), 0)):
+            for allow in (False, True):
+                out.append(mk(n_rc, n_rd, n_other, allow, False, source=src, T=T, repeat=rep))
     # a message repeating the roCreate's message ID stays in the collection; a blank roID is not "the same ID"
     for (n_rc, n_rd, n_other) in ((1, 1, 1), (1, 1, 0), (1, 0, 2)):
         for allow in (False, True):
